@@ -329,9 +329,24 @@ func fragment(b *ast.BlockStmt, from, to string) *ast.BlockStmt {
 		}
 		start := -1
 		for i, s := range blk.List {
-			if as, ok := s.(*ast.AssignStmt); ok && as.Tok == token.DEFINE {
-				for _, l := range as.Lhs {
-					if id, ok := l.(*ast.Ident); ok && id.Name == from {
+			if as, ok := s.(*ast.AssignStmt); ok && as.Tok == token.DEFINE && start < 0 {
+				for k, l := range as.Lhs {
+					id, ok := l.(*ast.Ident)
+					if !ok {
+						continue
+					}
+					if strings.HasPrefix(from, "call:") {
+						// role-based: the first definition from a call of the named constructor;
+						// the fragment ends at the first return that mentions the variable defined here
+						if k < len(as.Rhs) {
+							if c, isCall := as.Rhs[k].(*ast.CallExpr); isCall {
+								if fid, isID := c.Fun.(*ast.Ident); isID && fid.Name == from[len("call:"):] {
+									start = i
+									to = id.Name
+								}
+							}
+						}
+					} else if id.Name == from {
 						start = i
 					}
 				}
@@ -396,6 +411,7 @@ func Check(p *core.Prog, r *core.Report, pr Pair) {
 		}
 		alphaRename(cb, fd, pr.From != "")
 		sortCommutative(cb)
+		sortIndependent(cb)
 		t, err := tokens(cb)
 		if err != nil {
 			r.Und(pr.Rule, key, p.Pos(fd.Pos()), err.Error())
@@ -609,4 +625,92 @@ func sortCommutative(n ast.Node) {
 		}
 	}
 	post(n)
+}
+
+// sortIndependent brings adjacent statements that commute into one canonical
+// order (by printed form), in every block under n: two neighbours commute when
+// neither contains a call, a return, a branch or a declaration, and the
+// variables one of them assigns are not mentioned by the other. Swapping
+// `if i <= start { start += n }` and `if i < end { end += n }` is then not a
+// difference between siblings.
+func sortIndependent(n ast.Node) {
+	render := func(s ast.Stmt) string {
+		var buf bytes.Buffer
+		printer.Fprint(&buf, token.NewFileSet(), s)
+		return buf.String()
+	}
+	type rw struct {
+		ok     bool
+		writes map[string]bool
+		reads  map[string]bool
+	}
+	analyse := func(s ast.Stmt) rw {
+		out := rw{ok: true, writes: map[string]bool{}, reads: map[string]bool{}}
+		switch s.(type) {
+		case *ast.AssignStmt, *ast.IfStmt, *ast.IncDecStmt:
+		default:
+			out.ok = false
+			return out
+		}
+		ast.Inspect(s, func(m ast.Node) bool {
+			switch x := m.(type) {
+			case *ast.CallExpr, *ast.ReturnStmt, *ast.BranchStmt, *ast.DeclStmt, *ast.FuncLit, *ast.ForStmt, *ast.RangeStmt, *ast.StarExpr, *ast.IndexExpr:
+				out.ok = false
+			case *ast.AssignStmt:
+				if x.Tok == token.DEFINE {
+					out.ok = false
+				}
+				for _, l := range x.Lhs {
+					if id, ok := l.(*ast.Ident); ok {
+						out.writes[id.Name] = true
+					} else {
+						out.ok = false // field or element stores may alias
+					}
+				}
+			case *ast.IncDecStmt:
+				if id, ok := x.X.(*ast.Ident); ok {
+					out.writes[id.Name] = true
+				} else {
+					out.ok = false
+				}
+			case *ast.Ident:
+				out.reads[x.Name] = true
+			}
+			return out.ok
+		})
+		return out
+	}
+	commute := func(a, b rw) bool {
+		if !a.ok || !b.ok {
+			return false
+		}
+		for w := range a.writes {
+			if b.reads[w] || b.writes[w] {
+				return false
+			}
+		}
+		for w := range b.writes {
+			if a.reads[w] {
+				return false
+			}
+		}
+		return true
+	}
+	ast.Inspect(n, func(m ast.Node) bool {
+		blk, ok := m.(*ast.BlockStmt)
+		if !ok {
+			return true
+		}
+		for changed, rounds := true, 0; changed && rounds < 20; rounds++ {
+			changed = false
+			for i := 0; i+1 < len(blk.List); i++ {
+				a, b := blk.List[i], blk.List[i+1]
+				if commute(analyse(a), analyse(b)) && render(b) < render(a) {
+					blk.List[i], blk.List[i+1] = b, a
+					changed = true
+				}
+			}
+		}
+		return true
+	})
 }
